@@ -704,6 +704,10 @@ def _gen_case(rng, shape, ratio, malformed):
     if shape in ("arc", "circle", "arc_radius"):
         sweep = TWO_PI if shape == "circle" else rng.choice([rng.uniform(0.05, TWO_PI - 0.05), rng.uniform(0.05, TWO_PI - 0.05), math.pi / 2, math.pi, 3 * math.pi / 2])
         kz = 0.0 if (shape == "circle" or rng.random() < 0.4) else rng.choice([-1, 1]) * rng.uniform(0.05, 1.5)
+        if shape != "circle" and rng.random() < 0.15:
+            # steep helical arc: the vertical displacement (either sign) dominates the planar arc length
+            sweep = rng.uniform(0.05, 0.8)
+            kz = rng.choice([-1, 1]) * rng.uniform(1.0, 5.0)
         r = L / math.hypot(sweep, kz)
         if not (min_r <= r <= 400):
             return None
@@ -786,11 +790,18 @@ def _gen_case(rng, shape, ratio, malformed):
                 return None
             alpha = rng.uniform(0, TWO_PI)
             cen = (r0 * math.cos(alpha), r0 * math.sin(alpha))
+            if base == TWO_PI:
+                # whole turns: the target lies on the ray centre -> start, *exactly* (axis-aligned centre, so the
+                # two polar angles are the same float and their difference is exactly zero)
+                cen = rng.choice([(r0, 0.0), (-r0, 0.0), (0.0, r0), (0.0, -r0)])
             cx, cy = s[0] + cen[0], s[1] + cen[1]
             a0 = math.atan2(s[1] - cy, s[0] - cx)
             a1 = a0 + (-base if c["cw"] else base)
             r1 = math.hypot(*cen) * ratio_r
             tgt = [cx + r1 * math.cos(a1), cy + r1 * math.sin(a1), s[2] + kz * r0]
+            if base == TWO_PI:
+                tgt[0] = cx - cen[0] * ratio_r
+                tgt[1] = cy - cen[1] * ratio_r
             c.update(target=tgt if (kz != 0.0 or rng.random() < 0.5) else tgt[:2] + [None], center=list(cen), turns=turns, res=res, est_samples=10 * lr * 1.3)
         if bad:
             c["turns"] = rng.choice([0, -1])
